@@ -185,7 +185,7 @@ def body(ctx: Ctx):
                 "dictionaries (cores, threads_per_core, gpus_per_core, cwd existing / missing / None, oversubscribe, extra arguments, unknown "
                 "key), function with a resource_dict parameter, init_function, hostname_localhost, refresh_rate (default, other, negative), "
                 "flux options, pysqa_config_directory, plot_dependency_graph, cache_directory; each executed in its own process with a trivial "
-                "call and 6 s limits; non-trivial = more than the three mandatory options set",
+                "call submitted twice back to back and 6 s limits; non-trivial = more than the three mandatory options set",
         "differences": len(diffs), "accepted_not_run_outside_regions": len(fails),
         "inside_known_regions": {k: len(v) for k, v in known.items()},
         "ast_hashes": ast_hashes(ANCHORS),
